@@ -306,6 +306,16 @@ func mergeSnapshots(next, existing metadata.ClusterMetadata) metadata.ClusterMet
 			continue
 		}
 		if _, ok := seen[name]; ok {
+			// Partitions added through the brokers (CreatePartitions) are not in
+			// the topic resource; keep them so a publish never shrinks a topic.
+			for i := range next.Topics {
+				if *next.Topics[i].Topic != name {
+					continue
+				}
+				if have := len(next.Topics[i].Partitions); len(topic.Partitions) > have {
+					next.Topics[i].Partitions = append(next.Topics[i].Partitions, topic.Partitions[have:]...)
+				}
+			}
 			continue
 		}
 		next.Topics = append(next.Topics, topic)
